@@ -21,6 +21,6 @@ STUBS = []
 
 def xh_conditions(tier):
     t = 240 if tier == "quick" else 480
-    names = [f"_add_keeps_argument_k{k}_{w}" for k in range(4) for w in ("plain", "anc")] + ["_later_edits_keep_parent", "_rej_bs_modes", "_rej_bs_values", "_rej_ps_loss", "_rej_swaps_pair", "_rej_swaps_incomplete", "_rej_barrier", "_rej_herald_first", "_rej_herald_second", "_rej_add", "_copy_is_independent", "_sum_keeps_operands"]
+    names = [f"_add_keeps_argument_k{k}_{w}" for k in range(4) for w in ("plain", "anc")] + ["_later_edits_keep_parent", "_rej_bs_modes", "_rej_bs_values", "_rej_ps_loss", "_rej_swaps_pair", "_rej_swaps_incomplete", "_rej_barrier", "_rej_herald_first", "_rej_herald_second", "_rej_add", "_copy_is_independent", "_frozen_copy_keeps_original", "_sum_keeps_operands"]
     names += [f"_consumer_{k}" for k in ("simulator", "sampler", "quick_sampler", "analyzer", "reck", "reck_noisy")]
     return [dict(name=f"args.{c}", file="xh/c08_args.py", func=c, timeout=t, prop="C08") for c in names]
